@@ -269,6 +269,21 @@ func runC44(c *Ctx) {
 		c.Check(w == nil, "notice⇒removed", "the notified prefix is removed in the same turn, so it is never notified again", c.P.Pos(fn.Decl.Pos()), f.describe(w))
 	})
 
+	c.Rule("registration", func() {
+		n := 0
+		for _, u := range c.UsesOf(c.FuncObj("internal/commands", "NewRegistrationAck")) {
+			if u.Call == nil || u.EnclObj == nil || funcName(u.EnclObj) != P+"handleRegisterConsumer" {
+				continue
+			}
+			n++
+			shape := exprShape(u.Pkg.TypesInfo, u.Call.Args[1])
+			c.Check(shape == ".confirmedSeq+1", "registration-ack/next=confirmed+1", "a worker that (re)registers is told to resume after its last CONFIRMED sequence: jobs dispatched to it but not confirmed are still expected by it (announcing currentSeq+1 makes the worker discard them as duplicates while the producer keeps them as unconfirmed)", u.Where(c.P), "NextSeq is "+shape)
+		}
+		if n == 0 {
+			c.Undecided("registration-ack/site", "RegistrationAck construction found", "-", "no NewRegistrationAck in handleRegisterConsumer")
+		}
+	})
+
 	c.Rule("acceptance", func() {
 		fn := c.Func("actor", "workPullingProducerController.completeAccept")
 		f := c.NewFlow(fn)
